@@ -38,6 +38,9 @@ func genCrashpoints(r *rng, index int, stride int) *Spec {
 		ca.RestartMs = int64(r.pickInt(1000, 5000, 15000, 30000))
 	}
 	if mode == "zkcut" {
+		// the shipped default of the lock cache (30 s) in most of these runs: what it remembers must
+		// not outlive the connection
+		c.LockHeldTTLMs = int64(r.pickInt(30000, 30000, 1000))
 		ca.CutMs = c.SessionTimeoutMs + int64(r.pickInt(1500, 8000, 20000))
 		if r.chance(0.35) {
 			// long catch-up (slow appliers everywhere) and a short cut: the cut manager is back in a
